@@ -1103,6 +1103,7 @@ func (db *DB) handleMemTableFlush(mt *memTable, dropPrefixes [][]byte) error {
 	}
 	// We own a ref on tbl.
 	err = db.lc.addLevel0Table(tbl) // This will incrRef
+	verifFlushDone(tbl)
 	_ = tbl.DecrRef()               // Releases our ref.
 	return err
 }
